@@ -15,7 +15,7 @@ import z3
 
 from pyvc.registry import reg
 from pyvc.interp import Interp
-from pyvc.core import SymObj, PList, PDict, ClassVal, Unsupported, PyvcError, fresh_int, fresh_name, FuncVal, State
+from pyvc.core import SymObj, PList, PDict, ClassVal, Unsupported, PyvcError, fresh_int, fresh_name, FuncVal, State, HARNESS_ERRORS
 from pyvc.tmpl import Atom
 
 CPU = "xobjects/context_cpu.py"
@@ -169,7 +169,7 @@ def vc_to_function_arg():
             for st, out in it.exec_function(con, {"self": selfo, "arg": arg, "value": value}):
                 ob = lambda c, g: it.oblige(st, "post", f"{c}[{label}]", g if not isinstance(g, bool) else z3.BoolVal(g))
                 check(st, out, ob)
-        except Unsupported as e:
+        except HARNESS_ERRORS as e:
             vc_to_function_arg.undecided.append((label, str(e)[:150]))
         return it.obligations
 
@@ -293,7 +293,7 @@ def vc_call():
                 else:
                     ob("refused", out is not None and out[0] == "raise" and out[1] in ("AssertionError", "KeyError"))
                     ob("function_not_called", not getattr(st, "recorded", []))
-        except Unsupported as e:
+        except HARNESS_ERRORS as e:
             if label == "wrong_name" and "missing dict key" in str(e) and it2.obligations and "safe.KeyError" in it2.obligations[-1].name:
                 # kwargs[arg.name] with an absent name: python raises KeyError before the function is called -- a refusal
                 last = it2.obligations.pop()
@@ -313,7 +313,7 @@ def vc_call():
                     it3.oblige(st, "post", f"positional_arguments_refused[{label}]", z3.BoolVal(out is not None and out[0] == "raise" and out[1] == "ValueError"))
                 else:
                     it3.oblige(st, "post", f"forwards_keywords[{label}]", z3.BoolVal(out is not None and out[0] == "return"))
-        except Unsupported as e:
+        except HARNESS_ERRORS as e:
             vc_call.undecided.append((label, str(e)[:150]))
     obs += it3.obligations
     vc_call.interps = [it, it3]
